@@ -47,6 +47,13 @@
 #include "xraylib.h"
 #include "xrayglob.h"
 
+/* hidden-state poisoning: the library must not READ errno (or any other thread state the application may have left behind).
+   Before every operation the driver leaves a different value there, as an application that has just overflowed a strtod, taken
+   the log of a negative number or failed an allocation would; the answers must not depend on it.  (Seeded changes C02-9, C06-9,
+   C07-9, C12-9, C15-10, C16-7: "errno == ERANGE" tests without clearing errno first.) */
+#include <errno.h>
+static void xv_poison_errno(void) { static unsigned k; static const int v[4] = {ERANGE, EDOM, ENOMEM, 0}; errno = v[k++ & 3]; }
+
 XRL_EXTERN void Crystal_F_H_StructureFactor2(Crystal_Struct* crystal, double energy, int i_miller, int j_miller, int k_miller, double debye_factor, double rel_angle, xrlComplex* result, xrl_error **error);
 XRL_EXTERN void Crystal_F_H_StructureFactor_Partial2(Crystal_Struct* crystal, double energy, int i_miller, int j_miller, int k_miller, double debye_factor, double rel_angle, int f0_flag, int f_prime_flag, int f_prime2_flag, xrlComplex* result, xrl_error **error);
 double c_abs(xrlComplex x);
@@ -96,6 +103,7 @@ int main(void) {
   static char *t[1 << 16];
   setvbuf(stdout, NULL, _IOLBF, 0);
   while (fgets(line, sizeof line, stdin)) {
+    xv_poison_errno();
     int n = 0;
     for (char *p = strtok(line, " \n"); p && n < (1 << 16); p = strtok(NULL, " \n")) t[n++] = p;
     if (n == 0) continue;
